@@ -378,7 +378,6 @@ func runC15(w *vx.W) {
 	_ = reflect.TypeOf
 }
 
-
 // c15Workbook compares, for every (message, field number) row of the bundled 21.40
 // workbook that the compiled-in profile also has, the struct field the lookup
 // entry designates with the row's field name.
